@@ -12,11 +12,11 @@ theorem run_fixed (F : Nat → Bytes → Bytes) (h : Bytes → Bytes) (cfg : Nat
   cases hm : s.md5 with
   | none =>
     by_cases hoo : F cfg c = c <;>
-    simp [runProg, doSourceFile, restPart, backupPart, fmtPart, finishPart, md5Part, Fix.fixed, Mode.backup, exec, execFrom,
+    simp [runProg, doSourceFile, restPart, backupPart, fmtPart, finishPart, md5Part, Fix.fixed, FsMode.backup, exec, execFrom,
       Result.push, Result.fs, FS.get, FS.set, step, hc, hm, hoo]
   | some m =>
     by_cases hmm : m = h c <;> by_cases hoo : F cfg c = c <;>
-    simp [runProg, doSourceFile, restPart, backupPart, fmtPart, finishPart, md5Part, Fix.fixed, Mode.backup, exec, execFrom,
+    simp [runProg, doSourceFile, restPart, backupPart, fmtPart, finishPart, md5Part, Fix.fixed, FsMode.backup, exec, execFrom,
       Result.push, Result.fs, FS.get, FS.set, step, hc, hm, hmm, hoo]
 
 /-- a complete `--replace` run of the code BEFORE the fs-1 patch: the md5 is taken of the original -/
@@ -29,11 +29,11 @@ theorem run_md5_before (ck : Bool) (F : Nat → Bytes → Bytes) (h : Bytes → 
   cases hm : s.md5 with
   | none =>
     by_cases hoo : F cfg c = c <;>
-    simp [runProg, doSourceFile, restPart, backupPart, fmtPart, finishPart, md5Part, Mode.backup, exec, execFrom,
+    simp [runProg, doSourceFile, restPart, backupPart, fmtPart, finishPart, md5Part, FsMode.backup, exec, execFrom,
       Result.push, Result.fs, FS.get, FS.set, step, hc, hm, hoo]
   | some m =>
     by_cases hmm : m = h c <;> by_cases hoo : F cfg c = c <;>
-    simp [runProg, doSourceFile, restPart, backupPart, fmtPart, finishPart, md5Part, Mode.backup, exec, execFrom,
+    simp [runProg, doSourceFile, restPart, backupPart, fmtPart, finishPart, md5Part, FsMode.backup, exec, execFrom,
       Result.push, Result.fs, FS.get, FS.set, step, hc, hm, hmm, hoo]
 
 theorem injOn_tail {h : Bytes → Bytes} {F : Nat → Bytes → Bytes} {sp : Spec} {op : HistOp} {ops : List HistOp}
@@ -70,11 +70,11 @@ theorem crash_before_backup (F : Nat → Bytes → Bytes) (h : Bytes → Bytes) 
   cases hm : s.md5 with
   | none =>
     by_cases hoo : F cfg c = c <;>
-    simp [runProg, doSourceFile, restPart, backupPart, fmtPart, finishPart, md5Part, Fix.fixed, Mode.backup, CrashAt,
+    simp [runProg, doSourceFile, restPart, backupPart, fmtPart, finishPart, md5Part, Fix.fixed, FsMode.backup, CrashAt,
       torn, early, FS.get, FS.set, step, hc, hm, hoo, or_imp, forall_and]
   | some m =>
     by_cases hmm : m = h c <;> by_cases hoo : F cfg c = c <;>
-    simp [runProg, doSourceFile, restPart, backupPart, fmtPart, finishPart, md5Part, Fix.fixed, Mode.backup, CrashAt,
+    simp [runProg, doSourceFile, restPart, backupPart, fmtPart, finishPart, md5Part, Fix.fixed, FsMode.backup, CrashAt,
       torn, early, FS.get, FS.set, step, hc, hm, hmm, hoo, or_imp, forall_and]
 
 /-- a run killed after the backup was written and before the rename: the backup holds the file's
@@ -86,11 +86,11 @@ theorem crash_after_backup (F : Nat → Bytes → Bytes) (h : Bytes → Bytes) (
   cases hm : s.md5 with
   | none =>
     by_cases hoo : F cfg c = c <;>
-    simp [runProg, doSourceFile, restPart, backupPart, fmtPart, finishPart, md5Part, Fix.fixed, Mode.backup, CrashAt,
+    simp [runProg, doSourceFile, restPart, backupPart, fmtPart, finishPart, md5Part, Fix.fixed, FsMode.backup, CrashAt,
       torn, early, FS.get, FS.set, step, hc, hm, hoo, or_imp, forall_and]
   | some m =>
     by_cases hmm : m = h c <;> by_cases hoo : F cfg c = c <;>
-    simp [runProg, doSourceFile, restPart, backupPart, fmtPart, finishPart, md5Part, Fix.fixed, Mode.backup, CrashAt,
+    simp [runProg, doSourceFile, restPart, backupPart, fmtPart, finishPart, md5Part, Fix.fixed, FsMode.backup, CrashAt,
       torn, early, FS.get, FS.set, step, hc, hm, hmm, hoo, or_imp, forall_and]
 
 theorem kinjOn_tail {h : Bytes → Bytes} {F : Nat → Bytes → Bytes} {sp : Spec} {op : KOp} {ops : List KOp}
